@@ -95,7 +95,7 @@ def check_doc(nodes, src, case, res):
 
 
 def plan(ctx):
-    shards = [('doc', PROFILES[i % len(PROFILES)], ctx.pick(400, 12000), i) for i in range(16)]
+    shards = [('doc', PROFILES[i % len(PROFILES)], ctx.pick(260, 12000), i) for i in range(16)]
     shards += [('doc', 'flat', ctx.pick(12, 300), 16), ('doc', 'flat', ctx.pick(12, 300), 17)]   # three-digit line numbers
     L = ctx.pick(11, 14)
     big = [('big', size) for size in ctx.pick((9000, 20000, 70000), (9000, 20000, 70000, 140000))] + [('twins', n) for n in (1100, 2100, 4200)]
